@@ -439,6 +439,17 @@ func (ra *relAllRule) OnInstr(x *Explorer, fr *Frame, in ssa.Instruction, st uin
 	return st
 }
 
+// CallResult: a transfer that is attempted succeeds here; a refused transfer is C07's subject (BB-ERRPROP).
+func (ra *relAllRule) CallResult(x *Explorer, fr *Frame, c ssa.CallInstruction) ([]AV, CallMode) {
+	if e := ra.w.EffectOf(c); e != nil && e.Kind == EffTransfer && lastResultIsError(c.Common()) {
+		n := c.Common().Signature().Results().Len()
+		vals := make([]AV, n)
+		vals[n-1] = Nil
+		return vals, CallOverride
+	}
+	return ra.caseRule.CallResult(x, fr, c)
+}
+
 func (ra *relAllRule) OnBlock(x *Explorer, fr *Frame, b, pred *ssa.BasicBlock, st uint64) uint64 {
 	if pred == nil {
 		return st
